@@ -367,6 +367,37 @@ func TestC09(t *testing.T) {
 // judgeC09Client: the library client against a scripted server. Once the server has confirmed tls (and performs the
 // handshake), the client must have switched before it sends any authentication data.
 func judgeC09Client(c *CliCase, obs *CliObs, o *Outcome) {
+	// a confirmation whose compression this transport cannot apply (the TCP transport has none but "none"): the two ends cannot
+	// agree on what is in force, so the client must stop there - whatever else the same confirmation changes successfully
+	for i, s := range c.Script {
+		if i == 0 || i >= obs.SentN || s.Kind != "session" || s.State != "negotiating" || s.Comp == "" || s.Comp == "none" {
+			continue
+		}
+		choice := false
+		for _, g := range obs.Got {
+			if g.Step <= i && g.Env["state"] == "negotiating" {
+				choice = true
+			}
+		}
+		if !choice {
+			continue
+		}
+		o.NonTrivial = true
+		o.Class("client-got-unappliable-compression")
+		if obs.SesState == "established" {
+			o.Fail("C09/client-established-with-unapplied-compression", "the server confirmed compression %q, which the transport cannot apply, yet the client reports an established session", s.Comp)
+		}
+		for _, g := range obs.Got {
+			if g.Step > i && g.Env["authentication"] != nil {
+				o.Fail("C09/client-went-on-after-unappliable-compression", "the server confirmed compression %q, which the transport cannot apply, yet the client went on and sent its credentials", s.Comp)
+				break
+			}
+		}
+		if len(obs.AuthEnc) > 0 && obs.Err == "" {
+			o.Fail("C09/client-went-on-after-unappliable-compression", "the server confirmed compression %q, which the transport cannot apply, yet the client's authenticator ran", s.Comp)
+		}
+		return
+	}
 	confirmedTLS := -1
 	for i, s := range c.Script {
 		if i < obs.SentN && s.Kind == "session" && s.State == "negotiating" && s.Enc == "tls" && s.DoTLS && i > 0 {
@@ -420,13 +451,24 @@ func TestC09Client(t *testing.T) {
 	rt.RoundTrip = "plain"
 	est := ses("established")
 	est.To = cliA
+	optsGzip := ses("negotiating")
+	optsGzip.EncOpts, optsGzip.CompOpts = []string{"none", "tls"}, []string{"gzip", "none"}
+	confGzipTLS := ses("negotiating")
+	confGzipTLS.Comp, confGzipTLS.Enc, confGzipTLS.DoTLS = "gzip", "tls", true
+	confGzipNone := ses("negotiating")
+	confGzipNone.Comp, confGzipNone.Enc = "gzip", "none"
 	for _, encSel := range []string{"none", "tls", "first"} {
 		for _, auth := range []string{"plain", "guest", "echo", "key"} {
 			for _, cliTLS := range []bool{true, false} {
-				for _, conf := range []SSym{confTLS, confNone} {
+				for _, conf := range []SSym{confTLS, confNone, confGzipTLS, confGzipNone} {
 					for _, tail := range [][]SSym{{authReq, est}, {authReq, rt, est}, {authReq}, {est}} {
 						c := &CliCase{EncSel: encSel, CompSel: "none", Auth: auth, CliTLS: cliTLS, End: "eof"}
 						c.Script = append([]SSym{opts, conf}, tail...)
+						if conf.Comp == "gzip" {
+							// the server offers gzip too and the client picks the first compression on offer
+							c.CompSel = "first"
+							c.Script = append([]SSym{optsGzip, conf}, tail...)
+						}
 						o := &Outcome{}
 						o.Class("encSel=" + encSel)
 						var obs *CliObs
